@@ -44,6 +44,10 @@ OPS = [
     (r"<<", ">>"), (r"\^", "|"), (r"\.min\(", ".max("), (r"\.max\(", ".min("),
     (r"next_power_of_two\(\)", "next_power_of_two() / 2"),
     (r"\btrue\b", "false"), (r"\bfalse\b", "true"),
+    (r"\boriginal_count\b", "recovery_count"), (r"\brecovery_count\b", "original_count"),
+    (r"\bchunk_size\b", "chunk_size / 2"), (r"\bdist\b", "dist4"), (r"\btruncated_size\b", "size"),
+    (r"\.\.=", ".."), (r"(?<!\.)\.\.(?![.=])", "..="), (r"\bpos\b", "0"), (r"\bskew_delta\b", "0"),
+    (r"% 2\b", "% 4"), (r"/ 64\b", "/ 32"), (r"% 64\b", "% 32"), (r"\* 2\b", "* 4"), (r"GF_MODULUS", "GF_MODULUS - 1"),
 ]
 
 
@@ -111,10 +115,20 @@ def sh(cmd, cwd, env=None, timeout=3600):
     e["CARGO_NET_OFFLINE"] = "true"
     if env:
         e.update(env)
+    # own process group, so that a timeout also kills grandchildren (a test
+    # binary spinning in a mutated loop would otherwise burn a core forever)
+    p = subprocess.Popen(cmd, cwd=cwd, env=e, stdout=subprocess.PIPE, stderr=subprocess.STDOUT, text=True,
+                         start_new_session=True)
     try:
-        p = subprocess.run(cmd, cwd=cwd, env=e, stdout=subprocess.PIPE, stderr=subprocess.STDOUT, text=True, timeout=timeout)
-        return p.returncode, p.stdout
+        out, _ = p.communicate(timeout=timeout)
+        return p.returncode, out
     except subprocess.TimeoutExpired:
+        import signal
+        try:
+            os.killpg(p.pid, signal.SIGKILL)
+        except ProcessLookupError:
+            pass
+        p.communicate()
         return 124, "timeout"
 
 
